@@ -338,12 +338,74 @@ def ignored_unwrap_shape():
     return sh
 
 
+def selection_shapes():
+    """No enum-level attribute: variants are selected by variant-level attributes only.  A variant without any attribute next to an
+    ignored one (declared first) and an explicitly enabled one is *not ignored*, so its accessors / conversions must exist and work."""
+    out = []
+    variants = [Var("H", "h", "tuple", ["V"], attrs="#[try_into(ignore)]", ignored=True), Var("M", "m", "tuple", ["V"], attrs="#[try_into]"),
+                Var("P", "p", "tuple", ["V"]), Var("N", "n", "named", ["W"])]
+    decl = "#[derive(Clone, Copy, PartialEq, Debug, derive_more::TryInto)]\npub enum E {\n%s\n}" % "\n".join(v.decl("try_into") for v in variants)
+    src = """    #[kani::proof]
+    fn try_from_enum_selected_by_variant_attributes() {
+        let v = any_e();
+        let r = <V as core::convert::TryFrom<E>>::try_from(v);
+        kani::cover!(r.is_ok(), "reach Ok");
+        kani::cover!(r.is_err(), "reach Err");
+        match v {
+            E::M(l0) | E::P(l0) => assert!(matches!(r, Ok(p0) if p0 == l0), "Ok with the field expected for the enabled and for the un-attributed variant"),
+            _ => assert!(matches!(r, Err(e) if e.input == v), "Err must carry the original value (ignored variant, other payload type)"),
+        }
+        let r = <W as core::convert::TryFrom<E>>::try_from(v);
+        match v {
+            E::N { a: l0 } => assert!(matches!(r, Ok(p0) if p0 == l0), "named un-attributed variant converts"),
+            _ => assert!(matches!(r, Err(e) if e.input == v), "Err must carry the original value"),
+        }
+    }
+"""
+    out.append(Shape("c11_try_into_ignore_then_explicit_then_plain", module(decl, any_e(variants), src),
+                     [Harness("try_from_enum_selected_by_variant_attributes", "the value: variant and payloads symbolic", covers=2,
+                              asserts="TryFrom<E> for V succeeds exactly for the enabled and the un-attributed V variants; the ignored one returns Err(input)")],
+                     decl.replace("\n", " "), exercises=["impl/src/try_into.rs::expand", "impl/src/utils.rs::State::new_impl (default_enabled)"]))
+    variants = [Var("H", "h", "tuple", ["V"], attrs="#[is_variant(ignore)]\n    #[unwrap(ignore)]\n    #[try_unwrap(ignore)]", ignored=True),
+                Var("M", "m", "tuple", ["V"], attrs="#[unwrap(ref)]\n    #[try_unwrap(ref)]"),
+                Var("P", "p", "tuple", ["V", "W"]), Var("U", "u", "unit", [])]
+    decl = ("#[derive(Clone, Copy, PartialEq, Debug, derive_more::IsVariant, derive_more::Unwrap, derive_more::TryUnwrap)]\npub enum E {\n%s\n}" %
+            "\n".join(v.decl() for v in variants))
+    src = """    #[kani::proof]
+    fn accessors_selected_by_variant_attributes() {
+        let v = any_e();
+        assert!(v.is_m() == matches!(v, E::M(..)) && v.is_p() == matches!(v, E::P(..)) && v.is_u() == matches!(v, E::U));
+        kani::cover!(v.is_p(), "reach P");
+        kani::cover!(v.is_m(), "reach M");
+        match &v {
+            E::P(l0, l1) => {
+                let (p0, p1) = v.unwrap_p();
+                assert!(p0 == *l0 && p1 == *l1, "unwrap_p: payload not in declaration order");
+                let (q0, q1) = v.try_unwrap_p().ok().unwrap();
+                assert!(q0 == *l0 && q1 == *l1, "try_unwrap_p: payload not in declaration order");
+            }
+            E::M(_) => {
+                assert!(matches!(v.try_unwrap_p(), Err(e) if e.input == v), "try_unwrap_p on another variant must return the original");
+            }
+            E::U => { v.unwrap_u(); assert!(v.try_unwrap_u().is_ok()); }
+            _ => assert!(matches!(v.try_unwrap_p(), Err(e) if e.input == v), "try_unwrap_p on another variant must return the original"),
+        }
+    }
+"""
+    out.append(Shape("c11_unwrap_ignore_then_explicit_then_plain", module(decl, any_e(variants), src),
+                     [Harness("accessors_selected_by_variant_attributes", "the value: variant and payloads symbolic", covers=2,
+                              asserts="accessors of the un-attributed variants exist and agree with the value")],
+                     decl.replace("\n", " "), exercises=["impl/src/unwrap.rs::expand", "impl/src/try_unwrap.rs::expand", "impl/src/is_variant.rs::expand",
+                                                          "impl/src/utils.rs::State::new_impl (default_enabled)"]))
+    return out
+
+
 def shapes(tier):
     out = [unwrap_shape("c11_unwrap_mixed", UNWRAP_VARIANTS),
            ignored_unwrap_shape(),
            try_into_shape("c11_try_into_shared_tuples", TRYINTO_VARIANTS),
            try_into_shape("c11_try_into_small", TRYINTO_SMALL, quick=False),
-           generic_shape()]
+           generic_shape()] + selection_shapes()
     # the whole grid costs ~20 s: quick and thorough run all of it
     return out
 
